@@ -14,9 +14,11 @@ CLAIMED = {
     "C04": ("§6 C04", "seeded histories of the evolutionary/hybrid mutation moves from solver-made circuits, with every RNG draw of the moves owned by the simulator (extreme-but-legal answers injected); emission-structure invariants I1-I5 after every move."),
     "C13": ("§6 C13", "seeded user sessions over one pool of shared circuits/targets: interleavings of copy / rewrites / noisy copies / Monte-Carlo noise / compile / metric / solver calls with deliberate object re-use; observational fingerprints of every pool object compared before/after every call."),
     "C19": ("§6 C19", "each seeded solver configuration executed twice in-process under different RNG pollution before seed() and in two further interpreters with other PYTHONHASHSEED values; hall-of-fame digests must agree; per-generation hall-of-fame snapshots checked for order, honesty of stored scores, result = best, and monotone best score."),
+    "C10": ("§6 C10", "AlternateTargetSolver.solve() on seeded connected targets x settings (each LC method incl. the default, counts, depth, seed, four target presentations) with all Generator/global draws owned (duplicate answers injected); every entry's circuit judged on all outcome branches against |pi(G)> built from the input edges and the entry's map, the listed graph checked against an independent LC-orbit enumeration, entries pairwise distinct."),
+    "C16": ("§6 C16", "iso_finder's adaptive sampling loop and the LC-orbit explorers driven with simulator-owned Generators / global RNG, with duplicate and extreme-but-legal answers injected; results checked for input-first, count, distinctness, isomorphism (VF2) and orbit membership (independent enumeration)."),
     "C12": ("§6 C12", "seeded edit histories over the CircuitDAG API in lock-step with a per-wire reference model; acyclicity, sources/sinks, wire paths, index consistency, topological sequence and register counts after every edit."),
 }
-PENDING = {k: "simulation check not finished yet (planned, DESIGN §6); not claimed until its check runs clean" for k in ["C10", "C16"]}
+PENDING = {}
 NA = {
     "C03": "pure function of one tableau / one target graph: no random draw, call history, shared mutable state, schedule or fault in the statement; deciding it needs input enumeration or proof, not simulation (DESIGN §3)",
     "C05": "pure function of two tableaux (inputs are copied before use); no nondeterminism, history or fault dimension (DESIGN §3)",
